@@ -23,7 +23,7 @@ import (
 // The algorithm for collecting PV is based on the one described here:
 // https://web.archive.org/web/20070808093935/http://www.brucemo.com/compchess/programming/pv.htm
 type Search struct {
-	bestLineAtDepth [MaxSearchDepth][]Move
+	bestLineAtDepth [pvTableRows][]Move
 	// stop requests from the command thread; buffered so that sending never blocks
 	stop chan bool
 	// touched only by the search thread
@@ -40,7 +40,7 @@ var ProfileFile *os.File
 func NewSearch() *Search {
 	search := &Search{}
 	for i := 0; i < len(search.bestLineAtDepth); i++ {
-		search.bestLineAtDepth[i] = make([]Move, MaxSearchDepth-i)
+		search.bestLineAtDepth[i] = make([]Move, pvTableRows-i)
 	}
 	search.stop = make(chan bool, 1)
 	search.interrupted = true
